@@ -104,4 +104,10 @@ META["C16"] = {
     "technique": "property-based testing (rapid) with harness-constructed ECDSA signatures; oracle: independent fixed-width encoder, crypto/ecdsa ground truth, exhaustive length sweep per case",
 }
 
+META["C17"] = {
+    "text": "Exhaustive enumeration of the algorithm x key matrix (2214 cells, including RSA moduli fabricated with exact bit lengths around 2048 and invalid / unsupported elliptic points) against the model of the statement, plus property-based testing of the Sign/SignDigest/Verify/VerifyDigest equivalence with the reference verifier. The matrix is finite, so enumeration decides it.",
+    "note": TRUST,
+    "technique": "exhaustive matrix enumeration + property-based testing (rapid); oracle: model of the statement, reference verifier, cross-hash metamorphic checks",
+}
+
 NOT_APPLICABLE = {}
